@@ -44,8 +44,9 @@ type runState struct {
 	mon  Monitors
 	out  *Outcome
 	prev *Dump
-	ld   uint64 // digest of the lookups since the previous observation
-	rep  int    // issue every lookup this many times (monitors see all of them)
+	ld   uint64         // digest of the lookups since the previous observation
+	rep  int            // issue every lookup this many times (monitors see all of them)
+	prov map[string]int // which peer delivered each stored route (harness's own record)
 }
 
 func (s *runState) lookup(l Op) {
@@ -109,9 +110,13 @@ func (s *runState) do(op Op) {
 	s.out.H.Obs = append(s.out.H.Obs, ObsOf(s.ld, ret, sh))
 	s.out.H.Rets = append(s.out.H.Rets, ret)
 	s.ld = 0
-	if s.mon.C10 {
-		s.out.Fails = append(s.out.Fails, CheckMaintenance(s.prev, after, op, ret, now)...)
+	if s.prov == nil {
+		s.prov = map[string]int{}
 	}
+	// the maintenance rules are evaluated in all three harnesses: every
+	// lookup property rests on the buckets being maintained correctly
+	s.out.Fails = append(s.out.Fails, CheckMaintenance(s.prev, after, op, ret, now, s.prov)...)
+	UpdateProvenance(s.prov, s.prev, after, op)
 	s.prev = after
 }
 
@@ -128,11 +133,12 @@ func RunGenerated(t *testing.T, name string, g *Gen, mon Monitors, nMut, lookups
 			s := &runState{r: NewRunner(), p: &g.Pools, mon: mon, out: out}
 			s.prev = s.r.Dump()
 			for i := 0; i < nMut; i++ {
-				s.do(g.Next(s.prev, s.r.NowMs()))
+				op := g.Next(s.prev, s.r.NowMs())
+				s.do(op)
 				for _, l := range g.Lookups(lookupsPer) {
 					s.do(l)
 				}
-				if i%8 == 7 {
+				if i%8 == 7 || Removes(op.Code) {
 					for _, l := range g.AllLookups() {
 						s.do(l)
 					}
@@ -146,6 +152,18 @@ func RunGenerated(t *testing.T, name string, g *Gen, mon Monitors, nMut, lookups
 	})
 	out.H.Pools = g.Pools
 	return out
+}
+
+// Removes says whether the operation can delete routes (everything is looked
+// up right after such an operation: the survivors must still be found in
+// lowest-metric order).
+func Removes(code int) bool {
+	switch code {
+	case OpWd, OpDisc, OpClean, OpRmLocal, OpRmDyn, OpTRm, OpDDisc, OpDClean, OpDRmLocal, OpDTRm,
+		OpFDisc, OpFClean, OpFRmLocal, OpFTRm, OpADisc, OpAClean, OpATRm:
+		return true
+	}
+	return false
 }
 
 // RunFixed runs a given list of operations (witnesses, replays). repeatLookups
